@@ -21,6 +21,7 @@ import datetime as _dt
 import heapq
 import itertools
 import sys
+import threading
 from typing import Any, Callable, Optional
 
 import pykka
@@ -36,6 +37,10 @@ class SimDeadlock(BaseException):
         self.cycle = cycle
 
 
+class SimAbort(BaseException):
+    """Raised inside a parked helper thread when its world is closed."""
+
+
 class World:
     """Global virtual world: clock, timers, actors, event log."""
 
@@ -47,16 +52,18 @@ class World:
         self.timers: list = []  # heap of (due_us, seq, SimTimer)
         self.seq = itertools.count()
         self.actors: list = []  # SimActor instances in start order
-        self.stack: list = []  # actors currently inside a handler (ask stack)
+        self.stack: list = []  # Frames of the handlers in progress on the running chain (ask stack)
+        self.parked: list = []  # Ctx objects: suspended handlers whose asker timed out
         self.deadlock = None
+        self.deadlock_handlers = None
         self.log: list = []  # (now_us, kind, data)
         self.ask_log: list = []  # (caller, callee, timeout, handler)
-        self.handler_stack: list = []  # names of running handlers
         self.dead: dict = {}  # actor name -> repr(exception)
         self.on_handler: Optional[Callable] = None
         self.fault_hook: Optional[Callable] = None  # (actor_name, msg_name, index) -> exception or None
         self.msg_index: dict = collections.Counter()
         self.dropped_tells: list = []
+        self.frozen: set = set()  # actors whose inbox is not served by the scheduler (slow thread)
         World.current = self
 
     # ---- time -------------------------------------------------------------
@@ -112,7 +119,11 @@ class World:
 
     def runnable(self) -> list:
         """Actors with a non-empty inbox that are alive (deterministic order)."""
-        return [a for a in self.actors if a.actor_ref.is_alive() and not a.actor_inbox.empty()]
+        return [
+            a
+            for a in self.actors
+            if a.actor_ref.is_alive() and not a.actor_inbox.empty() and a not in self.frozen and self.parked_ctx_of(a) is None
+        ]
 
     def deliver(self, actor: "SimActor") -> Optional[str]:
         """Deliver exactly one envelope of `actor` (top level scheduler step)."""
@@ -124,7 +135,6 @@ class World:
         except SimDeadlock as d:
             self.deadlock = d.cycle
             self.stack.clear()
-            self.handler_stack.clear()
             self.emit("deadlock", list(d.cycle))
             return "DEADLOCK"
 
@@ -132,6 +142,15 @@ class World:
         """Deliver until every inbox is empty (timers are NOT fired). Returns number of deliveries."""
         n = 0
         while n < limit and self.deadlock is None:
+            try:
+                if self.resume_ready():
+                    n += 1
+                    continue
+            except SimDeadlock as d:
+                self.deadlock = d.cycle
+                self.stack.clear()
+                self.emit("deadlock", list(d.cycle))
+                break
             r = self.runnable()
             if not r:
                 break
@@ -174,6 +193,15 @@ class World:
     def run_for(self, seconds: float, **kw) -> None:
         self.run_until(self.now_us + int(round(seconds * 1_000_000)), **kw)
 
+    def close(self) -> None:
+        """Release the helper threads of handlers that are still parked."""
+        for c in list(self.parked):
+            c.abandoned = True
+            c.yield_evt.clear()
+            c.resume_evt.set()
+            c.yield_evt.wait(2)
+        self.parked.clear()
+
     def stop_all(self) -> None:
         for a in reversed(list(self.actors)):
             if a.actor_ref.is_alive():
@@ -183,11 +211,173 @@ class World:
                     pass
 
 
+    # ---- asks ---------------------------------------------------------------------
+    @property
+    def handler_stack(self):
+        return [f.handler for f in self.stack]
+
+    def busy_in_stack(self, actor):
+        for i, f in enumerate(self.stack):
+            if f.actor is actor:
+                return i
+        return None
+
+    def parked_ctx_of(self, actor):
+        for c in self.parked:
+            if any(f.actor is actor for f in c.segment):
+                return c
+        return None
+
+    def busy(self, actor) -> bool:
+        return self.busy_in_stack(actor) is not None or self.parked_ctx_of(actor) is not None
+
+    def resume(self, ctx) -> None:
+        """Resume a parked context whose awaited future is done; runs until it finishes or parks again."""
+        self.parked.remove(ctx)
+        base = len(self.stack)
+        self.stack.extend(ctx.segment)
+        ctx.segment = []
+        status = ctx.switch_in()
+        if status == "parked":
+            # parked again: frames above `base` stay suspended
+            ctx.segment = self.stack[base:]
+            del self.stack[base:]
+            self.parked.append(ctx)
+        else:
+            del self.stack[base:]
+            if isinstance(ctx.exc, SimDeadlock):
+                raise ctx.exc
+
+    def resume_ready(self) -> bool:
+        for c in list(self.parked):
+            if c.waiting is None or c.waiting._done:
+                self.resume(c)
+                return True
+        return False
+
+    def resolve(self, fut, timeout) -> None:
+        """Block the running frame until `fut` is done: atomic-ask semantics with faithful timeouts."""
+        my = len(self.stack) - 1
+        caller = self.stack[my].actor.sim_name if my >= 0 else "<main>"
+        handler = self.stack[my].handler if my >= 0 else "<main>"
+        owner = fut.owner
+        if owner is None:
+            raise pykka.Timeout("no owner")
+        self.ask_log.append((caller, owner.sim_name, timeout, handler))
+        if my >= 0:
+            self.stack[my].wait_timeout = timeout
+            self.stack[my].wait_future = fut
+        try:
+            while not fut._done:
+                idx = self.busy_in_stack(owner)
+                pctx = self.parked_ctx_of(owner) if idx is None else None
+                if idx is None and pctx is None:
+                    # owner idle: drain its inbox
+                    if owner.actor_inbox.empty() or not owner.actor_ref.is_alive():
+                        if not owner.actor_ref.is_alive():
+                            owner._actor_loop_teardown()
+                        if fut._done:
+                            break
+                        # nobody will ever answer
+                        if timeout is not None:
+                            self.sleep(timeout)
+                            raise pykka.Timeout(f"{timeout} seconds")
+                        self.deadlock_handlers = self.handler_stack
+                        raise SimDeadlock([caller, owner.sim_name + "(no answer)"])
+                    if timeout is None:
+                        owner._sim_process_one()
+                    else:
+                        self._drain_in_ctx(owner, fut, timeout, my)
+                    continue
+                if pctx is not None:
+                    g = pctx.waiting
+                    if g is not None and not g._done:
+                        gowner = g.owner
+                        if not self.busy(gowner):
+                            # make the parked handler's own question progress first
+                            if gowner.actor_inbox.empty() or not gowner.actor_ref.is_alive():
+                                if not gowner.actor_ref.is_alive():
+                                    gowner._actor_loop_teardown()
+                                if not g._done:
+                                    self._stuck(fut, timeout, my, 0, [caller, owner.sim_name, gowner.sim_name + "(no answer)"])
+                                    continue
+                            else:
+                                gowner._sim_process_one()
+                            continue
+                        gi = self.busy_in_stack(gowner)
+                        self._stuck(fut, timeout, my, gi if gi is not None else 0, [caller, owner.sim_name, gowner.sim_name])
+                        continue
+                    self.resume(pctx)
+                    continue
+                # owner is busy on the running chain: cyclic wait
+                cycle = [f.actor.sim_name for f in self.stack[idx:]] + [owner.sim_name]
+                self._stuck(fut, timeout, my, idx, cycle)
+        finally:
+            if my >= 0 and my < len(self.stack):
+                self.stack[my].wait_timeout = None
+                self.stack[my].wait_future = None
+
+    def _stuck(self, fut, timeout, my, lo, cycle):
+        """No progress is possible for the wait of frame `my` (cycle through frames lo..my).  The wait with the
+        smallest timeout on the cycle expires; none => deadlock."""
+        cands = []
+        for j in range(max(lo, 0), my):
+            if self.stack[j].wait_timeout is not None:
+                cands.append((self.stack[j].wait_timeout, j))
+        if timeout is not None:
+            cands.append((timeout, my))
+        if not cands:
+            self.deadlock_handlers = self.handler_stack
+            raise SimDeadlock(cycle)
+        t, j = min(cands)
+        self.emit("ask_timeout", (self.stack[j].actor.sim_name if j >= 0 else "<main>", self.stack[j].handler if j >= 0 else "<main>", t, cycle))
+        if j == my:
+            self.sleep(timeout)
+            raise pykka.Timeout(f"{timeout} seconds")
+        ctx = _cur_ctx()
+        if ctx is None:
+            # frames above j do not live in a helper thread (cannot happen: asks with timeout always spawn one)
+            self.deadlock_handlers = self.handler_stack
+            raise SimDeadlock(cycle + ["<unparkable>"])
+        ctx.park(j, fut)
+
+    def _drain_in_ctx(self, owner, fut, timeout, my):
+        """Process ONE envelope of `owner` inside a helper thread so that it can be parked if our wait times out."""
+        world = self
+
+        def body(ctx):
+            _tls.ctx = ctx
+            owner._sim_process_one()
+
+        ctx = Ctx(body)
+        base = len(self.stack)
+        while True:
+            status = ctx.switch_in()
+            if status == "done":
+                del self.stack[base:]
+                if ctx.exc is not None:
+                    raise ctx.exc
+                return
+            # parked
+            if ctx.park_target == my:
+                ctx.segment = self.stack[base:]
+                del self.stack[base:]
+                self.parked.append(ctx)
+                self.sleep(timeout)
+                raise pykka.Timeout(f"{timeout} seconds")
+            # the timed-out frame is further down: propagate by parking ourselves too
+            outer = _cur_ctx()
+            if outer is None:
+                self.deadlock_handlers = self.handler_stack
+                raise SimDeadlock(["<unparkable-propagation>"])
+            outer.park(ctx.park_target, ctx.waiting)
+
+
 def envelope_name(env) -> str:
     m = env.message
     if isinstance(m, _messages.ProxyCall):
         name = ".".join(m.attr_path)
-        if name == "do_guarded" and len(m.args) >= 2:
+        if name == "do_delayed" and len(m.args) >= 2:
             return f"{m.args[1]}@{m.args[0]}"
         return name
     if isinstance(m, _messages.ProxyGetAttr):
@@ -216,6 +406,70 @@ class SimInbox:
         return not self.items
 
 
+class Frame:
+    __slots__ = ("actor", "handler", "wait_timeout", "wait_future")
+
+    def __init__(self, actor, handler):
+        self.actor = actor
+        self.handler = handler
+        self.wait_timeout = None
+        self.wait_future = None
+
+
+class Ctx:
+    """A helper thread hosting the drain started by an ask WITH timeout, so that the frames above the asking
+    frame can stay suspended (parked) when that ask times out.  Exactly one thread runs at any time."""
+
+    def __init__(self, fn):
+        self.fn = fn
+        self.resume_evt = threading.Event()
+        self.yield_evt = threading.Event()
+        self.status = None  # 'done' | 'parked'
+        self.exc = None
+        self.segment = []  # frames parked with this context
+        self.waiting = None  # innermost future the parked frames wait for
+        self.park_target = None
+        self.abandoned = False
+        self.thread = threading.Thread(target=self._main, daemon=True)
+        self.started = False
+
+    def _main(self):
+        self.resume_evt.wait()
+        self.resume_evt.clear()
+        try:
+            self.fn(self)
+        except BaseException as e:  # noqa: BLE001
+            self.exc = e
+        self.status = "done"
+        self.yield_evt.set()
+
+    def switch_in(self):
+        if not self.started:
+            self.started = True
+            self.thread.start()
+        self.yield_evt.clear()
+        self.resume_evt.set()
+        self.yield_evt.wait()
+        return self.status
+
+    def park(self, target, waiting):
+        self.status = "parked"
+        self.park_target = target
+        self.waiting = waiting
+        self.yield_evt.set()
+        self.resume_evt.wait()
+        self.resume_evt.clear()
+        if self.abandoned:
+            raise SimAbort()
+
+
+_tls = threading.local()
+
+
+def _cur_ctx():
+    return getattr(_tls, "ctx", None)
+
+
 class SimFuture(_Future):
     def __init__(self):
         super().__init__()
@@ -223,6 +477,10 @@ class SimFuture(_Future):
         self._value = None
         self._exc = None
         self.owner_inbox: Optional[SimInbox] = None
+
+    @property
+    def owner(self):
+        return self.owner_inbox.owner if self.owner_inbox is not None else None
 
     def set(self, value=None):
         self._done = True
@@ -241,35 +499,7 @@ class SimFuture(_Future):
             pass
         w = World.current
         if not self._done:
-            owner = self.owner_inbox.owner if self.owner_inbox is not None else None
-            caller = w.stack[-1].sim_name if w.stack else "<main>"
-            handler = w.handler_stack[-1] if w.handler_stack else "<main>"
-            if owner is not None:
-                w.ask_log.append((caller, owner.sim_name, timeout, handler))
-            if owner is None:
-                raise pykka.Timeout("no owner")
-            if owner in w.stack:
-                # cyclic wait
-                if timeout is not None:
-                    w.emit("ask_timeout", (caller, owner.sim_name, handler))
-                    w.sleep(timeout)
-                    raise pykka.Timeout(f"{timeout} seconds")
-                cycle = [a.sim_name for a in w.stack[w.stack.index(owner):]] + [owner.sim_name]
-                raise SimDeadlock(cycle)
-            # drain the owner's inbox until our future resolves
-            while not self._done:
-                if owner.actor_inbox.empty() or not owner.actor_ref.is_alive():
-                    break
-                owner._sim_process_one()
-            if not self._done:
-                # owner died / stopped before answering
-                if not owner.actor_ref.is_alive():
-                    owner._actor_loop_teardown()
-                if not self._done:
-                    if timeout is not None:
-                        w.sleep(timeout)
-                        raise pykka.Timeout(f"{timeout} seconds")
-                    raise SimDeadlock([caller, owner.sim_name + "(dead)"])
+            w.resolve(self, timeout)
         if self._exc is not None:
             (exc_type, exc_value, exc_tb) = self._exc
             if exc_value is None:
@@ -309,11 +539,11 @@ class SimActor(pykka.Actor):
         w = World.current
         envelope = self.actor_inbox.get()
         name = envelope_name(envelope)
-        w.stack.append(self)
-        w.handler_stack.append(f"{self.sim_name}.{name}")
+        w.stack.append(Frame(self, f"{self.sim_name}.{name}"))
         idx = w.msg_index[self.sim_name]
         w.msg_index[self.sim_name] += 1
         if envelope.reply_to is None:
+            w.now_us += 1  # the wall clock is strictly monotonic between two handlers
             w.emit("deliver", (self.sim_name, name))
         try:
             try:
@@ -338,7 +568,6 @@ class SimActor(pykka.Actor):
                         self._handle_failure(*sys.exc_info())
         finally:
             w.stack.pop()
-            w.handler_stack.pop()
         if self.actor_stopped.is_set():
             self._actor_loop_teardown()
         if w.on_handler is not None and not w.stack:
@@ -357,10 +586,10 @@ class SimTimer:
         self.cancelled = False
         self.fired = False
         w = World.current
-        self.owner = w.stack[-1].sim_name if w.stack else "<main>"
+        self.owner = w.stack[-1].actor.sim_name if w.stack else "<main>"
         try:
             self.label = ".".join(function.__self__._attr_path)  # CallableProxy.defer
-            if self.label == "do_guarded" and len(self.args) >= 2:
+            if self.label == "do_delayed" and len(self.args) >= 2:
                 self.label = f"{self.args[1]}"
         except Exception:  # noqa: BLE001
             self.label = getattr(function, "__name__", "?")
